@@ -219,16 +219,100 @@ def r4_ancestor_scan(ctx):
         r.violation(f.root + "|checkpoint-from-matched-index", cfg.loc(body), "iterate_scan_proofs no longer rebuilds a checkpoint tree", work=1)
 
 
+def r5_scan_page_depends_on_offset(ctx):
+    """A scan page for offset k must prove the leaves k, k+1, .. positions
+    behind the head: the index handed to `tree().proof(..)` has to be a function
+    of the request offset — by data flow (index computed from offset, through
+    arithmetic or iterator adaptors), or because a step of the index sits
+    directly behind a comparison with the offset (the hand-written skip loop).
+    How many records a stream happens to yield is not such a dependence."""
+    ws = ctx.ws
+    r = ctx.rule("C08-R5", "the proof index of a scan page is a function of the request offset",
+                 floor=1, kind="K4 data flow + direct control dependence on a comparison")
+    fns = ws.find_fns(r"^sos_server_storage::server_helpers::scan_log$")
+    if not fns:
+        r.anchor_missing("server_helpers::scan_log")
+        return
+    f = fns[0]
+    body = cfg.code_body(ws, f)
+    live = cfg.live_blocks(body)
+    fg = FlowGraph(ws, f)
+
+    def from_offset(sl):
+        return sl.has_var(body, "offset") or bool(sl.reads_field("offset"))
+    alldefs = cfg.defs_of(body)
+
+    def scalar_from_offset(op, seen=None, depth=0):
+        """The operand is computed from `offset` by copies, casts and arithmetic
+        only (no calls, no struct fields: `res.proofs.len()` is not the offset
+        although `res.offset` was assigned from it)."""
+        seen = seen if seen is not None else set()
+        p_ = cfg.op_place(op)
+        if p_ is None or "." in p_.replace(".f0:", "", 1) and not re.match(r"^\d+\.f0:$", p_):
+            return False
+        l = cfg.place_local(p_)
+        if body.vars.get(str(l)) == "offset":
+            return True
+        if l in seen or depth > 10:
+            return False
+        seen.add(l)
+        for (_bi, st, is_term) in alldefs.get(l, []):
+            if is_term:
+                continue
+            if st.get("k") in ("use", "cast", "bin", "un"):
+                if any(scalar_from_offset(o, seen, depth + 1) for o in st["ops"]):
+                    return True
+        return False
+    proofs = [(i, t) for i, t in idioms.real_calls(body, live) if cname(t) == "proof" and "CommitTree" in (t.get("callee") or "")]
+    n = 0
+    for (i, t) in proofs:
+        sl = fg.back_from_operand(body, t["args"][-1])
+        idx_locals = {key for (bp, key) in sl.nodes if bp == body.path and isinstance(key, int) and body.vars.get(str(key)) == "index"}
+        if not idx_locals:
+            continue      # a constant index (the first-proof call)
+        n += 1
+        k = "%s|proof#%d" % (f.root, n)
+        if from_offset(sl):
+            r.ok(k, cfg.loc(body, i), "the index is computed from the offset (data flow)", work=len(sl.nodes))
+            continue
+        defs = cfg.defs_of(body)
+        def_blocks = {bi for l in idx_locals for (bi, _st, _t) in defs.get(l, [])}
+        ok = False
+        for j in sorted(live):
+            bs = cfg.bool_switch(body, j)
+            if not bs or bs.defn is None or bs.def_is_term or bs.defn.get("k") != "bin" or bs.defn.get("op") not in ("Lt", "Le", "Gt", "Ge", "Eq", "Ne"):
+                continue
+            if not any(scalar_from_offset(o) for o in bs.defn["ops"]):
+                continue
+            # only a comparison inside the loop that emits the proofs steers the
+            # index per iteration (an early bounds check before the loop does not)
+            if not (i in cfg.reach_after(body, bs.block) and bs.block in cfg.reach_after(body, i)):
+                continue
+            tr = cfg.reach(body, [bs.true_t], cut_blocks=[bs.block])
+            fr = cfg.reach(body, [bs.false_t], cut_blocks=[bs.block])
+            if def_blocks & ((tr - fr) | (fr - tr)):
+                ok = True
+        if ok:
+            r.ok(k, cfg.loc(body, i), "a step of the index sits directly behind a comparison with the offset", work=len(live))
+        else:
+            r.violation(k, cfg.loc(body, i),
+                        "the index proved for a scan page does not depend on the request offset (neither by data flow nor behind a comparison with it): every page after the first proves the newest leaves again, so an ancestor more than one page back is never found",
+                        work=len(live))
+    if n == 0:
+        r.anchor_missing("proof(&[index]) call in scan_log")
+
+
 def run(ctx):
     ctx.explanation = (
         "Value-flow and edge-dominance rules over CommitTree::compare, CommitProof::verify_leaves, every call of "
         "rs_merkle::MerkleProof::verify and the consumers of Comparison: (R1) root, indices and total leaf count "
         "passed to verify come from the same CommitProof; (R2) Equal/Contains are constructed only on the true edges "
         "of root equality / (all indices resolved and verify); (R3) consumers distinguish Unknown; (R4) the ancestor "
-        "scan returns a commit only for a verified proof and rebuilds the checkpoint from the matched index. Decides "
+        "scan returns a commit only for a verified proof and rebuilds the checkpoint from the matched index; (R5) the index proved for a scan page is a function of the request offset. Decides "
         "how verdicts are sourced; soundness of the Merkle scheme itself is rs_merkle's (trusted).")
     ctx.trust("rs_merkle::MerkleProof::verify is a sound Merkle multi-proof verifier")
     r1_verify_against_own_tree(ctx)
     r2_verdict_table(ctx)
     r3_consumers_exhaustive(ctx)
     r4_ancestor_scan(ctx)
+    r5_scan_page_depends_on_offset(ctx)
